@@ -176,13 +176,15 @@ func (i *Int) Clone() kyber.Scalar {
 
 // Zero set the Int to the value 0.  The modulus must already be initialized.
 func (i *Int) Zero() kyber.Scalar {
-	i.V = *compatible.NewInt(0)
+	// Mod sizes the value to the modulus, as every bigmod operation expects
+	i.V = *compatible.NewInt(0).Mod(compatible.NewInt(0), i.M)
 	return i
 }
 
 // One sets the Int to the value 1.  The modulus must already be initialized.
 func (i *Int) One() kyber.Scalar {
-	i.V = *compatible.NewInt(1)
+	// Mod sizes the value to the modulus, as every bigmod operation expects
+	i.V = *compatible.NewInt(0).Mod(compatible.NewInt(1), i.M)
 	return i
 }
 
